@@ -1065,3 +1065,10 @@ V("shaving-yield-cutoff-unguarded", "break", ["C10", "C15"], SH, "        statis
 V("shaving-yield-cutoff-guarded", "neutral", ["C15"], SH, "        statistics[STATS_IDX_ALG_SHAVING_NB] += 1\n",
   "        failed_nb = statistics[STATS_IDX_ALG_SHAVING_NO_CHANGE_NB]\n        if failed_nb > 0 and statistics[STATS_IDX_ALG_SHAVING_CHANGE_NB] / failed_nb < 0.02:\n            break\n        statistics[STATS_IDX_ALG_SHAVING_NB] += 1\n",
   "the same cut-off with the divisor tested first")
+# ---- R-MODE-ARITH heuristic-answer-difference (round 6, C15-x3)
+GO = "nucs/examples/golomb/golomb_problem.py"
+V("golomb-free-marks-hoisted", "break", ["C15"], GO, None, None, "mark_nb - ni_var_idx hoisted above the guard and used in it: wraps in interpreted mode once all marks are placed",
+  "golomb_consistency_algorithm", expect_rule="R-MODE-ARITH",
+  edits=[{"old": "    if 1 < ni_var_idx < mark_nb - 1:  # otherwise useless\n", "new": "    free_mark_nb = mark_nb - ni_var_idx\n    if 1 < ni_var_idx and 1 < free_mark_nb:  # otherwise useless\n"}])
+V("golomb-free-marks-inside-guard", "neutral", ["C15", "C16"], GO, None, None, "the same local computed inside the guard",
+  edits=[{"old": "        for j in range(0, mark_nb - ni_var_idx):\n", "new": "        free_mark_nb = mark_nb - ni_var_idx\n        for j in range(0, free_mark_nb):\n"}])
